@@ -1,3 +1,264 @@
 package main
 
-func runThorough(c *Ctx, r *Result, p *propDef, repo, verif string) {}
+import (
+	"encoding/json"
+	"fmt"
+	"os"
+	"os/exec"
+	"path/filepath"
+	"sort"
+	"strings"
+	"sync"
+
+	"golang.org/x/tools/go/callgraph/cha"
+	"golang.org/x/tools/go/callgraph/vta"
+	"golang.org/x/tools/go/ssa/ssautil"
+)
+
+// The thorough tier repeats the property's analysis under GOARCH=386 (identical findings
+// required), cross-checks the module call graph against x/tools' VTA graph (every M x M edge
+// VTA finds must be an MCG edge), and runs the property's part of the mutant catalogue: each
+// mutant is a semantic patch applied to a scratch copy of the CURRENT /repo (removed right
+// after), which must still type-check and must make the check report a finding that names the
+// mutated construct. A mutant whose pattern no longer applies is reported as skipped.
+
+type mutant struct {
+	Name   string
+	Props  []string
+	File   string
+	Old    string
+	New    string
+	Expect []string // substrings; one finding ID must contain each
+}
+
+func runThorough(c *Ctx, r *Result, p *propDef, repo, verif string) {
+	// 1. VTA ⊆ MCG
+	crossCheckVTA(c, r)
+	// 2. GOARCH=386
+	self, err := os.Executable()
+	if err != nil {
+		r.LoseAnchor("thorough: cannot locate own executable: %v", err)
+		return
+	}
+	tmp, err := os.MkdirTemp("", "verifthorough")
+	if err != nil {
+		r.LoseAnchor("thorough: %v", err)
+		return
+	}
+	defer os.RemoveAll(tmp)
+	mine := map[string]bool{}
+	for _, o := range r.Obls {
+		if o.Verdict == Finding || o.Verdict == Undecided {
+			mine[o.ID()] = true
+		}
+	}
+	ids386, err := subRun(self, p.ID, repo, tmp, "386", "arch386")
+	if err != nil {
+		r.LoseAnchor("thorough: GOARCH=386 run failed: %v", err)
+	} else {
+		got := map[string]bool{}
+		for _, id := range ids386 {
+			got[strings.SplitN(id, " @ ", 2)[0]] = true
+		}
+		same := len(got) == len(mine)
+		for id := range mine {
+			if !got[id] {
+				same = false
+			}
+		}
+		if same {
+			r.Note("thorough: GOARCH=386 re-analysis gives the identical set of %d findings", len(mine))
+			r.Count("thorough GOARCH=386 findings", len(got))
+		} else {
+			r.LoseAnchor("thorough: findings differ between the default architecture (%d) and GOARCH=386 (%d)", len(mine), len(got))
+		}
+	}
+	// 3. mutants
+	var todo []mutant
+	for _, m := range mutantCatalogue {
+		for _, id := range m.Props {
+			if id == p.ID {
+				todo = append(todo, m)
+			}
+		}
+	}
+	results := make([]MutantOutcome, len(todo))
+	var wg sync.WaitGroup
+	sem := make(chan struct{}, 8)
+	for i, m := range todo {
+		wg.Add(1)
+		go func(i int, m mutant) {
+			defer wg.Done()
+			sem <- struct{}{}
+			defer func() { <-sem }()
+			results[i] = runMutant(self, p.ID, repo, tmp, m, mine)
+		}(i, m)
+	}
+	wg.Wait()
+	r.Mutants = append(r.Mutants, results...)
+}
+
+func subRun(self, prop, repo, tmp, arch, tag string) ([]string, error) {
+	out := filepath.Join(tmp, tag+".json")
+	vdir := filepath.Join(tmp, "verif-"+tag)
+	os.MkdirAll(vdir, 0o755)
+	args := []string{"-prop", prop, "-repo", repo, "-verif", vdir, "-nofixtures", "-findings-out", out}
+	if arch != "" {
+		args = append(args, "-goarch", arch)
+	}
+	cmd := exec.Command(self, args...)
+	cmd.Env = os.Environ()
+	b, err := cmd.CombinedOutput()
+	if err != nil {
+		return nil, fmt.Errorf("%v: %s", err, lastLines(string(b), 5))
+	}
+	data, err := os.ReadFile(out)
+	if err != nil {
+		return nil, fmt.Errorf("no findings file: %s", lastLines(string(b), 5))
+	}
+	var ids []string
+	if err := json.Unmarshal(data, &ids); err != nil {
+		return nil, err
+	}
+	return ids, nil
+}
+
+func lastLines(s string, n int) string {
+	ls := strings.Split(strings.TrimSpace(s), "\n")
+	if len(ls) > n {
+		ls = ls[len(ls)-n:]
+	}
+	return strings.Join(ls, " | ")
+}
+
+func runMutant(self, prop, repo, tmp string, m mutant, baseline map[string]bool) MutantOutcome {
+	res := MutantOutcome{Name: m.Name}
+	src, err := os.ReadFile(filepath.Join(repo, m.File))
+	if err != nil {
+		res.Status, res.Note = "skipped", "file not found: "+m.File
+		return res
+	}
+	if strings.Count(string(src), m.Old) < 1 {
+		res.Status, res.Note = "skipped", "pattern no longer present in "+m.File
+		return res
+	}
+	dir, err := os.MkdirTemp("", "verifmutant")
+	if err != nil {
+		res.Status, res.Note = "builderror", err.Error()
+		return res
+	}
+	defer os.RemoveAll(dir)
+	scratch := filepath.Join(dir, "repo")
+	if err := copyRepo(repo, scratch); err != nil {
+		res.Status, res.Note = "builderror", "copy: "+err.Error()
+		return res
+	}
+	mutated := strings.Replace(string(src), m.Old, m.New, 1)
+	if err := os.WriteFile(filepath.Join(scratch, m.File), []byte(mutated), 0o644); err != nil {
+		res.Status, res.Note = "builderror", err.Error()
+		return res
+	}
+	ids, err := subRun(self, prop, scratch, dir, "", "m")
+	if err != nil {
+		res.Status, res.Note = "builderror", err.Error()
+		return res
+	}
+	var fresh []string
+	for _, id := range ids {
+		key := strings.SplitN(id, " @ ", 2)[0]
+		if !baseline[key] {
+			fresh = append(fresh, id)
+		}
+	}
+	sort.Strings(fresh)
+	res.Findings = fresh
+	if len(res.Findings) > 6 {
+		res.Findings = append(res.Findings[:6], fmt.Sprintf("... (%d findings)", len(fresh)))
+	}
+	ok := len(fresh) > 0
+	for _, want := range m.Expect {
+		found := false
+		for _, id := range fresh {
+			if strings.Contains(id, want) {
+				found = true
+			}
+		}
+		if !found {
+			ok = false
+			res.Note = "no finding names " + want
+		}
+	}
+	if ok {
+		res.Status = "killed"
+	} else {
+		res.Status = "survived"
+	}
+	return res
+}
+
+func copyRepo(src, dst string) error {
+	return filepath.Walk(src, func(p string, info os.FileInfo, err error) error {
+		if err != nil {
+			return err
+		}
+		rel, _ := filepath.Rel(src, p)
+		if rel == ".git" || strings.HasPrefix(rel, ".git"+string(filepath.Separator)) {
+			if info.IsDir() {
+				return filepath.SkipDir
+			}
+			return nil
+		}
+		out := filepath.Join(dst, rel)
+		if info.IsDir() {
+			return os.MkdirAll(out, 0o755)
+		}
+		if !info.Mode().IsRegular() {
+			return nil
+		}
+		b, err := os.ReadFile(p)
+		if err != nil {
+			return err
+		}
+		return os.WriteFile(out, b, 0o644)
+	})
+}
+
+// crossCheckVTA: every edge between two module functions in x/tools' VTA call graph must be an
+// edge of the module call graph (soundness cross-check of the MCG construction).
+func crossCheckVTA(c *Ctx, r *Result) {
+	all := ssautil.AllFunctions(c.W.Prog)
+	g := vta.CallGraph(all, cha.CallGraph(c.W.Prog))
+	edges, missing := 0, 0
+	var examples []string
+	for fn, node := range g.Nodes {
+		if fn == nil || !c.G.InSc[fn] {
+			continue
+		}
+		for _, e := range node.Out {
+			callee := e.Callee.Func
+			if callee == nil || !c.G.InSc[callee] {
+				continue
+			}
+			edges++
+			found := false
+			for _, me := range c.G.Out[fn] {
+				if me.Callee == callee {
+					found = true
+					break
+				}
+			}
+			if !found {
+				missing++
+				if len(examples) < 5 {
+					examples = append(examples, shortFn(fn)+" -> "+shortFn(callee))
+				}
+			}
+		}
+	}
+	r.Count("thorough VTA module edges cross-checked", edges)
+	if missing > 0 {
+		r.LoseAnchor("thorough: %d call edges found by VTA are missing from the module call graph (e.g. %v): the reach sets may be unsound", missing, examples)
+	} else {
+		r.Note("thorough: all %d module-to-module call edges of x/tools' VTA graph are edges of the module call graph", edges)
+	}
+}
